@@ -64,3 +64,25 @@ Theorem C09_detection_preserves_stream :
     final_ok d flt (finish (fst (fst (detect_reader sched cutoff toml_parses tm tj ty d flt))) f).
 Proof. exact detect_then_own. Qed.
 
+
+(* "Every input that translates successfully is detected as the same format from a
+   slice and from a reader", for JSON, on the models of the trial (JsonTrialModel.v:
+   serde_json's ignore_value) and of the parse: a JSON stream of at least one
+   document that the reader loop translates to the end is accepted by the JSON
+   trial in both forms (so the upfront UTF-8 check of the slice form never makes
+   them differ on such input), is never taken for MessagePack, and is detected as
+   JSON whatever the later trials would say. *)
+From XtModel Require Import Utf8 MsgpackModel JsonModel JsonTrialModel JsonTrialProofs DetectModel SelfDetectProofs.
+
+Theorem C09_translatable_json_accepted_by_both_trial_forms :
+  forall (inp : bytes) (d : list ev) (docs : list (list ev)),
+    json_reader inp = (d :: docs, JDone) ->
+    json_trial_reader inp = true /\ json_trial_slice inp = true.
+Proof. exact translatable_json_accepted. Qed.
+
+Theorem C09_translatable_json_is_detected_as_json :
+  forall (sched : nat -> nat) (cutoff : nat) (toml_parses utf8 : bytes -> bool) (ty : trial)
+         (inp : bytes) (d : list ev) (docs : list (list ev)),
+    json_reader inp = (d :: docs, JDone) ->
+    snd (detect sched cutoff toml_parses (msgpack_slice_trial utf8) json_slice_trial ty (start (HSlice inp))) = Ok (Some Json).
+Proof. exact translatable_json_detected. Qed.
